@@ -87,7 +87,7 @@ def make_case(idx):
     nlines = R.randint(2, 6)
     lines = []
     for _ in range(nlines):
-        toks = [R.choice(words + [' ', ' ', '.', '-', 'aa', 'foofoo', 'xfoo']) for _ in range(R.randint(0, 7))]
+        toks = [R.choice(words + [' ', ' ', '.', '-', 'aa', 'foofoo', 'xfoo'] + (['/', '|', '"', '[', ']', 'a/b', '[ab]', ','] if idx % 4 == 0 else [])) for _ in range(R.randint(0, 7))]
         lines.append(''.join(toks))
     noic = R.random() < 0.4
     cmds = []
@@ -97,7 +97,7 @@ def make_case(idx):
         if k < 0.45:
             ast = mr.rand_ast(R, depth=R.choice([0, 1, 1, 2]), alphabet=['a', 'b', 'o', 'f', 'x', 'é', 'A', ' ', '1', 'F'])
         elif k < 0.7:
-            w = R.choice(['foo', 'a', 'ab', 'x', 'é', 'aa', 'o'])
+            w = R.choice(['foo', 'a', 'ab', 'x', 'é', 'aa', 'o'] + (['a/b', '/', '|', '"', '[', ']', 'a|', ','] if idx % 4 == 0 else []))
             parts = []
             if R.random() < 0.3:
                 parts.append(('bol',))
@@ -112,12 +112,13 @@ def make_case(idx):
         elif k < 0.85:
             ast = R.choice([('rep', ('lit', 'x'), 0, -1), ('rep', ('lit', 'a'), 0, -1), ('bol',), ('eol',), ('rep', ('grp', ('lit', 'ab')), 0, 1), ('wbeg',), ('wend',),
                             ('cat', [('bol',), ('rep', ('lit', ' '), 0, -1)]), ('alt', ('grp', ('lit', 'a')), ('grp', ('lit', 'b'))),
-                            ('cat', [('grp', ('any',)), ('grp', ('any',))]), ('cat', [('bol',), ('lit', 'a')]), ('rep', ('brk', False, [('range', 'a', 'c')]), 1, -1)])
+                            ('cat', [('grp', ('any',)), ('grp', ('any',))]), ('cat', [('bol',), ('lit', 'a')]), ('cat', [('lit', '['), ('grp', ('rep', ('any',), 0, -1)), ('lit', ']')]), ('cat', [('lit', '['), ('grp', ('lit', 'a')), ('lit', 'b]'), ('grp', ('any',))]),
+                            ('cat', [('grp', ('lit', 'a')), ('lit', '/'), ('grp', ('any',))]), ('rep', ('brk', False, [('range', 'a', 'c')]), 1, -1)])
         else:
             ast = None          # empty pattern: reuse the previous one
             if prev_ast is None:
                 ast = ('lit', 'a')
-        rep = ''.join(R.choice(['X', 'yy', '\\0', '\\1', '\\2', '\\9', '\\\\', 'é', ' ', '', '[\\0]', '\\&', '&', '-', '中', '\\n', '\\/' if False else 'q']) for _ in range(R.randint(0, 3)))
+        rep = ''.join(R.choice(['X', 'yy', '\\0', '\\1', '\\2', '\\9', '\\\\', 'é', ' ', '', '[\\0]', '\\&', '&', '-', '中', '\\n', 'q'] + (['|', '"', '/', ',', 'x|y', '#', ':'] if idx % 4 == 0 else [])) for _ in range(R.randint(0, 3)))
         g = R.random() < 0.55
         a = R.randint(1, nlines)
         b = R.randint(a, nlines)
